@@ -23,6 +23,7 @@ def run(rep, tier, seed):
         setup = head + g.lines + ["drop_all", "unmount"]
         dirty = rng.chance(1, 3)
         nocount = is32 and rng.chance(1, 3)
+        force_stats = False
         pokes = []
         # a volume another system marked dirty / hard-error in the second FAT entry (this library never writes those bits)
         fatdirty = not conf[0].startswith("fat12") and rng.chance(1, 3)
@@ -37,12 +38,20 @@ def run(rep, tier, seed):
                     pokes.append("poke %d %s" % (base + 2, (0x7FFF if rng.chance(1, 2) else 0xBFFF).to_bytes(2, "little").hex()))
         if dirty:
             pokes.append("poke %d 01" % (65 if is32 else 37))
+        fsi_free_off = (512 * 1 + 488 if "1024" not in conf[2].split()[1] else 1024 + 488)
         if nocount:
-            pokes.append("poke %d ffffffff" % (512 * 1 + 488 if "1024" not in conf[2].split()[1] else 1024 + 488))
+            pokes.append("poke %d ffffffff" % fsi_free_off)
+        elif is32 and rng.chance(1, 2):
+            # the sector HAS a count, at a boundary of its range (0 = "volume full", 1, a large one): a stored count is a stored
+            # count - statistics must not store anything
+            pokes.append("poke %d %s" % (fsi_free_off, rng.choice([0, 0, 1, 2, 1000]).to_bytes(4, "little").hex()))
+            force_stats = True
         ro = sessions.Gen(rng, False, True)
         ro.dirs = dict(g.dirs); ro.files = dict(g.files); ro.cluster = g.cluster
         ro.nexth = 500
         ro_lines_start = len(setup) + len(pokes) + 1
+        if force_stats:
+            ro.emit("stats")
         while len(ro.lines) < 30:
             k = rng.below(10)
             if k == 0: ro.emit("stats")
@@ -52,6 +61,16 @@ def run(rep, tier, seed):
         end = rng.choice(["unmount", "dropfs"])
         s = setup + pokes + ["mount 1 0 lossy"] + ro.lines + ["drop_all", end]
         scripts.append(s); metas.append((ro_lines_start, is32, dirty, nocount))
+    # deterministic family: FAT32, the information sector HAS a count at a boundary of its range; statistics, then close
+    for conf in [c for c in confs if c[0].startswith("fat32")]:
+        fsi_free_off = (512 * 1 + 488 if "1024" not in conf[2].split()[1] else 1024 + 488)
+        for cnt in (0, 1, 2):
+            for end in ("unmount", "dropfs"):
+                setup = ["dev %d 0" % conf[1], "wlog 0", conf[2], "pages", "wlog 1", "mount 1 0 lossy",
+                         "create_file 0 %s 1" % hexs("some file.txt"), "write_pat 1 3000 1", "drop_all", "unmount",
+                         "poke %d %s" % (fsi_free_off, cnt.to_bytes(4, "little").hex()), "mount 1 0 lossy"]
+                ro_lines = ["stats", "list 0", "open_file 0 %s 2" % hexs("some file.txt"), "read_all 2 5000", "stats", "status_flags", "drop_all", end]
+                scripts.append(setup + ro_lines); metas.append((len(setup), True, False, False))
     res = vlib.run_scripts(scripts)
     ro_calls = 0
     for sc_lines, ops, (start, is32, dirty, nocount) in zip(scripts, res, metas):
